@@ -704,18 +704,19 @@ class Methods:
                     continue
                 ta = self._set_term(st, tmp_cur, et)
                 tb = self._set_term(st, oref, et)
+                xq = z3.Const(f"x!so{fresh_id()}", m.sort(et))
                 if kind == "union":
-                    cur_sv, cur_items = SV(z3.SetUnion(ta, tb), ("set", et)), None
+                    cur_sv, cur_items = SV(z3.Lambda([xq], z3.Or(z3.Select(ta, xq), z3.Select(tb, xq))), ("set", et)), None
                 elif kind == "intersection":
-                    cur_sv, cur_items = SV(z3.SetIntersect(ta, tb), ("set", et)), None
+                    cur_sv, cur_items = SV(z3.Lambda([xq], z3.And(z3.Select(ta, xq), z3.Select(tb, xq))), ("set", et)), None
                 elif kind == "difference":
-                    cur_sv, cur_items = SV(z3.SetDifference(ta, tb), ("set", et)), None
+                    cur_sv, cur_items = SV(z3.Lambda([xq], z3.And(z3.Select(ta, xq), z3.Not(z3.Select(tb, xq)))), ("set", et)), None
                 elif kind == "issubset":
-                    return [(st, self._b(z3.IsSubset(ta, tb)))]
+                    return [(st, self._b(z3.ForAll([xq], z3.Implies(z3.Select(ta, xq), z3.Select(tb, xq)))))]
                 elif kind == "issuperset":
-                    return [(st, self._b(z3.IsSubset(tb, ta)))]
+                    return [(st, self._b(z3.ForAll([xq], z3.Implies(z3.Select(tb, xq), z3.Select(ta, xq)))))]
                 elif kind == "isdisjoint":
-                    return [(st, self._b(z3.SetIntersect(ta, tb) == z3.K(m.sort(et), False)))]
+                    return [(st, self._b(z3.ForAll([xq], z3.Not(z3.And(z3.Select(ta, xq), z3.Select(tb, xq))))))]
             if inplace:
                 st.heap[ref.id] = SetObj(items=cur_items, sv=cur_sv, frozen=o.frozen)
                 return [(st, None)]
